@@ -40,11 +40,26 @@ def scenario_for(cls, variant):
     expected = None
     nonzero_region = None
     rep = {"class": cls, "variant": variant, "bits": bits, "integer": integer, "f": f}
-    if cls == "quantized_bits":
+    if cls == "quantized_bits" and not variant.startswith("auto"):
       ste = variant == "ste"
       q = ip.call(Q.qcls(ip, cls), [SNum(bits), SNum(integer)], {"qnoise_factor": fv, "use_ste": ste})
       expected = z3.RealVal(1) if ste else 1 - f
       nonzero_region = z3.BoolVal(True)
+    elif cls in ("quantized_linear", "quantized_bits") and variant.startswith("auto"):
+      # data-dependent scale: the scale (a group reduction of the input) must not carry a gradient; the derivative of
+      # the reduction itself is an unconstrained symbol (pyvc/lib._aggregate), so the claim holds only if the code
+      # stops it
+      ak = "auto_po2" if "po2" in variant else "auto"
+      ste = "noste" not in variant
+      kw = {"alpha": ak, "qnoise_factor": fv}
+      if cls == "quantized_bits":
+        kw["use_ste"] = ste
+      q = ip.call(Q.qcls(ip, cls), [SNum(bits), SNum(integer), 1, 1], kw)
+      x = Q.tensor("x", grad=True, shape=(3, 4))
+      s.vars["x"] = x.e
+      xe = x.e
+      rep.update({"alpha": ak, "shape": [3, 4], "use_ste": ste})
+      s.info["auto"] = (cls, ste)
     elif cls == "quantized_linear":
       q = ip.call(Q.qcls(ip, cls), [SNum(bits), SNum(integer)], {"qnoise_factor": fv})
       n = bits - 1
@@ -151,6 +166,21 @@ def scenario_for(cls, variant):
     if g is None:
       s.claim("grad", False)
       return s
+    if s.info.get("auto"):
+      acls, ste = s.info["auto"]
+      if acls == "quantized_linear":
+        # identity wherever x / quantization_scale is strictly inside the clip interval, (1 - f) outside (documented)
+        qs = Q.num_value(ip.getattr(q, "quantization_scale"))
+        top = z3.ToReal(I.IPOW2(bits - 1) - 1)
+        ip.assume(z3.And(xe != top * qs, xe != -top * qs))
+        inside = z3.And(xe > -top * qs, xe < top * qs)
+        s.hints.extend([bits - 1, integer])
+        s.claim("grad", g == z3.If(inside, z3.RealVal(1), 1 - f))
+        s.claim("nonzero", z3.Implies(inside, g != 0))
+      else:
+        s.claim("grad", g == (z3.RealVal(1) if ste else 1 - f))
+        s.claim("nonzero", z3.Implies(z3.BoolVal(ste), g != 0))
+      return s
     if s.info.get("custom"):
       kind, n = s.info["custom"]
       # tanh/sigmoid: gradient is the hard surrogate's slope wherever the result is not clipped, else 0;
@@ -179,7 +209,8 @@ def bounds(vars_):
 
 def cases(tier):
   out = []
-  table = [("quantized_bits", ["ste", "noste"]), ("quantized_linear", ["ste"]),
+  table = [("quantized_bits", ["ste", "noste", "auto_ste", "auto_noste", "auto_po2_ste"]),
+           ("quantized_linear", ["ste", "auto", "auto_po2"]),
            ("quantized_relu", ["ste", "noste", "leaky_ste", "leaky_noste", "ste_ub", "leaky_ste_ub", "noste_ub",
                                "ste_noclip", "leaky_ste_noclip"]),
            ("quantized_po2", ["ste", "noste", "ste_mv", "noste_mv"]),
